@@ -100,6 +100,8 @@ class Solver:
                 eps = P.ATOMS.info[a][1]
                 self.box[a] = (-eps, eps)
             lo, hi = self.box.get(a, self.default_box if kind in ('in', 'cot', 'par', 'free') else (None, None))
+            if kind in ('sqrt',) and lo is None:
+                lo = Fraction(0)
             if lo is not None:
                 self.s.add(v >= z3.RealVal(lo))
             if hi is not None:
@@ -177,8 +179,9 @@ class Solver:
         a = self.exact_term(c.a); b = self.exact_term(c.b)
         return {'lt': a < b, 'le': a <= b, 'gt': a > b, 'ge': a >= b, 'eq': a == b, 'ne': a != b}[c.op]
 
-    def _round(self, d):
+    def _round(self, d, grid=None):
         """-> ({mono: int} on the grid, eps) ; eps bounds the dropped mass over the boxes (None if unbounded)"""
+        GRID = grid or globals()['GRID']
         scaled = {}
         eps = Fraction(0)
         for k, c in d.t.items():
@@ -199,14 +202,21 @@ class Solver:
                 scaled[k] = n
         return scaled, eps
 
-    def decide(self, d, tau, with_defs=False, label=None):
-        """∃ atoms in boxes: |d| > tau ?"""
+    def decide(self, d, tau, with_defs=False, label=None, grid_bits=None):
+        """∃ atoms in boxes: |d| > tau ?   grid_bits: coarser rounding grid (Form P: what is left after rounding is either
+        identically zero or has a coefficient the solver can exhibit quickly)"""
         st = self.stats
         if d.is_zero():
             st.trivial_zero += 1
             return 'unsat', None
         tau = Fraction(tau)
-        scaled, eps = self._round(d)
+        GRID = (1 << grid_bits) if grid_bits else globals()['GRID']
+        scaled, eps = self._round(d, GRID)
+        if scaled is not None and not scaled and eps < tau:
+            # everything was below the grid: |d| <= eps < tau on the boxes (rounding lemma), no solver call needed
+            st.queries += 1; st.unsat += 1
+            st.rounded_away = getattr(st, 'rounded_away', 0) + 1
+            return 'unsat', None
         t0 = time.time()
         st.queries += 1
         lin = d.is_linear()
@@ -269,6 +279,48 @@ class Solver:
             elif with_defs and P.ATOMS.kind[a] == 'ite':
                 c, p, q = P.ATOMS.info[a]
                 todo.extend(p.atoms()); todo.extend(q.atoms()); todo.extend(_cond_atoms(c))
+
+    def auto_bounds(self, atoms, floor=None):
+        """interval bounds for sqrt / inv atoms from the boxes of the atoms they are defined over.
+        floor: lower bound of every sqrt atom (e.g. the magnitude bias b, justified by r = sqrt(sum of squares + b^2))"""
+        def ub(p):
+            s = Fraction(0)
+            for k, c in p.t.items():
+                m = abs(c)
+                for a in k:
+                    b = self.bound(a)
+                    if b is None:
+                        b = bnd(a)
+                    if b is None:
+                        return None
+                    m *= max(abs(b[0]), abs(b[1]))
+                s += m
+            return s
+
+        def bnd(a):
+            if a in self.box:
+                return self.box[a]
+            kind = P.ATOMS.kind[a]
+            if kind == 'sqrt':
+                u = ub(P.ATOMS.info[a])
+                if u is None:
+                    return None
+                import math
+                hi = Fraction(math.isqrt(int(u * 10 ** 12)) + 1, 10 ** 6)
+                self.box[a] = (Fraction(floor) if floor is not None else Fraction(0), hi)
+                return self.box[a]
+            if kind == 'inv':
+                q = P.ATOMS.info[a]
+                x = q.single_atom()
+                if x is not None and P.ATOMS.kind[x] == 'sqrt':
+                    b = bnd(x)
+                    if b is not None and b[0] > 0:
+                        self.box[a] = (1 / b[1], 1 / b[0])
+                        return self.box[a]
+                return None
+            return self.bound(a)
+        for a in atoms:
+            bnd(a)
 
     def decide_amplified(self, d, tau, factors=(10 ** 3, 10 ** 6, 10 ** 8), **kw):
         """decide; on sat, look for a witness with a larger discrepancy (convincing replay)"""
